@@ -15,6 +15,19 @@ CLAIMED = {
         note="Lean kernel; axioms propext/Classical.choice/Quot.sound at most; hand-written model GMGModel/Grid.lean; "
              "correspondence harness h_grid.cpp + gmgdriver; nr*ntheta < 2^31 assumed as in the code.",
         technique="Lean 4 proof (omega, Nat/Int div-mod lemmas) over a hand model + differential correspondence with PolarGrid"),
+    "C14": dict(
+        category="proof",
+        text="Lean 4 theorems for every dimension n and every (ordered) field: the code's three-pass in-place LDL^T solve equals the "
+             "recursive elimination and solves T x = b whenever no pivot vanishes; every SPD (in particular every strictly diagonally "
+             "dominant) tridiagonal matrix has positive pivots; the cyclic Sherman-Morrison solve with the code's gamma = -a0 solves "
+             "the cyclic system for every SPD cyclic matrix including n = 2, 3 (denominator positivity and SPD of the modified "
+             "matrix proved); a repeated solve re-uses the stored factors and returns the identical result for every scalar type "
+             "(hence for double).  Tie: real SymmetricTridiagonalSolver<double> against the same Lean definitions run in IEEE double "
+             "(bit-identical on the clean tree) and in exact rationals, plus a backward-error oracle on the implementation.",
+        design_ref="DESIGN.md section 4, C14",
+        note="Lean kernel; axioms propext/Classical.choice/Quot.sound; hand model GMGModel/Tridiag.lean; floating-point backward "
+             "stability is measured (<= 2^-34 componentwise), not proved.",
+        technique="Lean 4 proof (induction over the Schur complement, Sherman-Morrison identity, quadratic forms) + differential correspondence"),
 }
 
 PENDING_REASON = "not claimed yet: model and theorems for this property are still being built (see DESIGN.md section 7)"
